@@ -4,6 +4,8 @@ package main
 
 import (
 	"bytes"
+	"context"
+	"crypto/rsa"
 	"encoding/base64"
 	"encoding/xml"
 	"errors"
@@ -20,6 +22,7 @@ import (
 
 	"github.com/crewjam/saml"
 	"github.com/crewjam/saml/samlsp"
+	"github.com/golang-jwt/jwt/v4"
 
 	. "verifharness/internal/core"
 	"verifharness/internal/emit"
@@ -83,6 +86,7 @@ func runC09(c *Ctx) {
 	randomCombinations(c, c.Groups["c09"], 300, true)
 	c09Logout(c)
 	c09Resolver(c)
+	c09Middleware(c)
 	c09IdP(c)
 	c09Metadata(c)
 	c09Flate(c)
@@ -362,6 +366,10 @@ func (errReader) Close() error             { return nil }
 
 func (f *faultRT) RoundTrip(req *http.Request) (*http.Response, error) {
 	switch f.mode {
+	case "stall-until-request-context-ends":
+		// a resolver that never answers: the call must end when the inbound request's context ends
+		<-req.Context().Done()
+		return nil, req.Context().Err()
 	case "connection-error":
 		return nil, errors.New("dial tcp: connection refused")
 	case "status-500":
@@ -381,7 +389,7 @@ func c09Resolver(c *Ctx) {
 	now := baseNow
 	rs, as := validSpecs(cfg, now, "res")
 	good := soapWrap(buildResponse(RespSpec{Tag: "ArtifactResponse", ID: "ar-res", IRT: sp("nope"), Issue: rs.Issue, Issuer: sp(cfg.IdpEntity), Status: sp(statusSuccess)}, buildResponse(rs, buildAssertion(as)))).Render()
-	modes := []faultRT{{mode: "connection-error"}, {mode: "status-500"}, {mode: "status-302"}, {mode: "read-error"},
+	modes := []faultRT{{mode: "stall-until-request-context-ends"}, {mode: "connection-error"}, {mode: "status-500"}, {mode: "status-302"}, {mode: "read-error"},
 		{mode: "empty-body"}, {mode: "garbage", body: "\x00\xff garbage"}, {mode: "truncated", body: good[:len(good)/2]},
 		{mode: "soap-fault", body: `<soap:Envelope xmlns:soap="` + nsSOAP + `"><soap:Body><soap:Fault><faultcode>x</faultcode></soap:Fault></soap:Body></soap:Envelope>`},
 		{mode: "wrong-envelope", body: `<Envelope><Body/></Envelope>`}, {mode: "html", body: "<html><body>login</body></html>"},
@@ -403,7 +411,25 @@ func c09Resolver(c *Ctx) {
 			req, _ := http.NewRequest("POST", cfg.AcsURL, nil)
 			req.Form = url.Values{"SAMLart": {"AAQAAMh48/1oXIM+sDo7Dh2qMp1HM4IF5DaRNmDj6RdUmllwn9jJHyEgIi8="}}
 			req.PostForm = req.Form
-			a, err = spv.ParseResponse(req, []string{"req-1"})
+			// the inbound request is abandoned after 300 ms (client gone / server deadline)
+			ctx, cancel := context.WithTimeout(context.Background(), 300*time.Millisecond)
+			defer cancel()
+			req = req.WithContext(ctx)
+			done := make(chan struct{})
+			go func() {
+				defer close(done)
+				defer func() {
+					if p := recover(); p != nil {
+						panicked = fmt.Sprint(p)
+					}
+				}()
+				a, err = spv.ParseResponse(req, []string{"req-1"})
+			}()
+			select {
+			case <-done:
+			case <-time.After(5 * time.Second):
+				panicked = "hang: ParseResponse did not return within 5 s of the inbound request's context ending"
+			}
 		})
 		var ire *saml.InvalidResponseError
 		ok := panicked == "" && a == nil && err != nil && errors.As(err, &ire) && err.Error() == "Authentication failed"
@@ -745,5 +771,83 @@ func c09Mutations(c *Ctx) {
 		c.Count("mutation_outcome/" + o.Kind)
 		c.Add(g, &Case{Key: map[string]string{"class": "mutation"}, Input: map[string]any{"document_b64": base64.StdEncoding.EncodeToString(b)}, Obs: o,
 			Term: fmt.Sprint(ok), ImplSpecOK: Bptr(ok), Dedup: string(b)})
+	}
+}
+
+// The samlsp middleware consumes the assertion the SP returns (session creation): every IdP-signed
+// response that the SP ACCEPTS while optional parts are missing (no NameID, no attribute or
+// authentication statement, ...) must end in a redirect or an error page, never a panic.
+func c09Middleware(c *Ctx) {
+	g := c.Group("c09mw", nil, "bool", "check_bools")
+	now := baseNow
+	cfg := defaultCfg()
+	n := 0
+	for mask := 0; mask < 1<<6; mask++ {
+		for _, relay := range []string{"", "unknown-index"} {
+			n++
+			rs, as := validSpecs(cfg, now, fmt.Sprintf("mwc%d", n))
+			rs.IRT, as.Confs[0].IRT = sp("id-1"), sp("id-1")
+			a := buildAssertion(as)
+			var removed []string
+			rm := func(bit int, name string, f func()) {
+				if mask&(1<<bit) != 0 {
+					f()
+					removed = append(removed, name)
+				}
+			}
+			subj := a.Child("saml", "Subject")
+			rm(0, "NameID", func() { subj.Remove(subj.Child("saml", "NameID")) })
+			rm(1, "AuthnStatement", func() { a.Remove(a.Child("saml", "AuthnStatement")) })
+			rm(2, "AttributeStatement", func() { a.Remove(a.Child("saml", "AttributeStatement")) })
+			rm(3, "AudienceRestriction", func() { cn := a.Child("saml", "Conditions"); cn.Remove(cn.Child("saml", "AudienceRestriction")) })
+			rm(4, "SubjectConfirmation", func() { subj.Remove(subj.Child("saml", "SubjectConfirmation")) })
+			rm(5, "empty AttributeStatement", func() {
+				if st := a.Child("saml", "AttributeStatement"); st != nil {
+					st.Kids = []*Node{E("saml", "Attribute", A("Name", "empty"))}
+				}
+			})
+			r := buildResponse(rs, a)
+			SignInto(r, 0)
+			status, panicked := 0, ""
+			withGlobals(cfg, now, func() {
+				oldJ := jwt.TimeFunc
+				jwt.TimeFunc = saml.TimeNow
+				defer func() { jwt.TimeFunc = oldJ }()
+				defer func() {
+					if p := recover(); p != nil {
+						panicked = fmt.Sprint(p)
+					}
+				}()
+				spv := cfg.SP()
+				m, err := samlsp.New(samlsp.Options{URL: mustURL("https://sp.example.com/"), Key: spv.Key.(*rsa.PrivateKey), Certificate: spv.Certificate, IDPMetadata: spv.IDPMetadata})
+				if err != nil {
+					panic(err)
+				}
+				m.ServiceProvider = *spv
+				rr0 := httptest.NewRecorder()
+				req0, _ := http.NewRequest("GET", "https://sp.example.com/page", nil)
+				if _, err := m.RequestTracker.TrackRequest(rr0, req0, "id-1"); err != nil {
+					panic(err)
+				}
+				form := url.Values{"SAMLResponse": {base64.StdEncoding.EncodeToString([]byte(r.Render()))}}
+				if relay != "" {
+					form.Set("RelayState", relay)
+				}
+				req, _ := http.NewRequest("POST", cfg.AcsURL, strings.NewReader(form.Encode()))
+				req.Header.Set("Content-Type", "application/x-www-form-urlencoded")
+				for _, ck := range rr0.Result().Cookies() {
+					req.AddCookie(ck)
+				}
+				rr := httptest.NewRecorder()
+				m.ServeHTTP(rr, req)
+				status = rr.Code
+			})
+			ok := panicked == "" && status != 0
+			c.Count("class/middleware-consumes")
+			c.Count(fmt.Sprintf("mw_status/%d", status))
+			c.Add(g, &Case{Key: map[string]string{"class": "middleware-consumes", "removed": strings.Join(removed, ","), "relay": relay},
+				Input: map[string]any{"removed": removed, "relay_state": relay, "document": r.Render()}, Obs: map[string]any{"status": status, "panic": panicked},
+				Term: fmt.Sprint(ok), ImplSpecOK: Bptr(ok), Dedup: fmt.Sprintf("%d/%s", mask, relay)})
+		}
 	}
 }
